@@ -172,10 +172,11 @@ def case_key(case: dict) -> str:
         extra = f":K={case['K']}"
     elif case["agg"] == "cagrad":
         extra = f":c={case['c']:g}"
+    bs = ""
     if "bs" in case:
         b = case["bs"]
-        j += f"]:rho={''.join(map(str, b['rho']))}:gam={''.join(map(str, b['gam']))}:P={b['P']}:[bs"
-    return f"{case['agg']}:J=[{j}]:e={case['e']}{extra}:{case.get('dtype', 'f64')}"
+        bs = f":bs(rho={''.join(map(str, b['rho']))},gam={''.join(map(str, b['gam']))},P={b['P']})"
+    return f"{case['agg']}:J=[{j}]{bs}:e={case['e']}{extra}:{case.get('dtype', 'f64')}"
 
 
 def eval_c03(case: dict) -> list[tuple[str, str]]:
